@@ -181,6 +181,17 @@ class Session:
                 self.d.send_messages([make_message(8, i) for i in range(3)])
                 self.peer.send(data)
                 settle = SETTLE + 1.0
+            elif kind == "burst":
+                # a lively connection: twelve watchdog exchanges one after the other (each DWR is sent when the
+                # answer to the previous one has arrived), about two virtual seconds in all
+                reqs = []
+                for i in range(12):
+                    hbh, e2e = 0x7b000000 + i, 0x7c000000 + i
+                    reqs.append((280, hbh, e2e))
+                    before = len(node.split_stream(self.peer.received())[0])
+                    self.peer.send(node.dwr(hbh, e2e))
+                    self.peer.wait_for(lambda: len(node.split_stream(self.peer.received())[0]) > before, "dwa", timeout=3.0)
+                extra["sent"] = {"what": "burst", "requests": reqs}
             elif kind == "msg+close":
                 # an inbound message and a local stop pending in the same tick
                 data, meta = self.wire(ev[1], None)
@@ -333,6 +344,11 @@ def judge(role, prev, o, history_ctx):
     if base_delivered:
         errs.append((sig(f"G5:base-message-delivered:{kind if what is None else what}"),
                      f"G5: base-protocol message(s) {base_delivered} handed to the application after {ev} in {ps}"))
+    # R20 (converse): the watchdog request is for an *idle* connection "after the configured timeout": with a 30 s
+    # timeout no history explored here (<= 14 steps of <= 3.5 virtual seconds) leaves the connection idle that long
+    if history_ctx.get("watchdog", 30) >= 30 and kind != "idle" and emitted(280, True):
+        errs.append((sig(f"R20:premature-watchdog:{kind if what is None else what}"),
+                     f"R20: a DWR was emitted after {ev} although the connection has not been idle for WATCHDOG_TIMEOUT=30 s"))
     # G4: Open only through R4 / R8
     if ns in OPENS and ps not in OPENS:
         ok = (role == "client" and ps == "Wait-I-CEA" and what in ("cea-echo", "cea-echo-2ip")) or \
@@ -455,6 +471,10 @@ def judge(role, prev, o, history_ctx):
             for m in dwrs:
                 if (m["origin_host"], m["origin_realm"]) != local:
                     errs.append((sig("R20:dwr-origin"), f"R20: DWR with origin {m['origin_host']}/{m['origin_realm']}"))
+        elif kind == "burst":
+            allow({ps}, "R10")
+            if len(emitted(280, False)) != 12:
+                errs.append((sig("R10:dwa-count-burst"), f"R10: twelve DWRs answered by {len(emitted(280, False))} DWA(s)"))
         elif kind == "send":
             allow({ps}, "send")
             if "submitted" in o and not o.get("raised"):
@@ -568,6 +588,8 @@ class FsmModel:
                 evs += [("msg", "app+dpr"), ("msg", "dwr+dpr")]
                 evs += [("msg+close", "app-req"), ("msg+close", "dwr"), ("msg+eof", "app-req"), ("msg+eof", "dwr")]
                 evs += [("backlog+msg", m) for m in ("dwr", "dwr+dwr", "dwr+app", "dwr+dpr")]
+                if self.watchdog >= 30:
+                    evs.append(("burst",))
                 evs += [("send",), ("idle", 4.0 if self.watchdog > 10 else 2.0 * self.watchdog + 3.0)]
             elif state == "Closing":
                 evs += [("msg", m) for m in ("dpa", "dpa-echo", "dwr", "app-req", "dpr", "dwa", "dwa-echo")]
